@@ -81,44 +81,67 @@ static LineNumber write_define_hunk(LineWriter& output, const Hunk& hunk, const 
         InsideELSE,
     };
 
+    // A preprocessor directive must be on a line of its own, so both the directive and the line before it
+    // must be terminated - even if the line it is next to is the last line of a file missing its newline.
+    auto terminator_of = [](const Line& line) {
+        return line.newline == NewLine::None ? NewLine::LF : line.newline;
+    };
+
     DefineState define_state = DefineState::Outside;
     auto line_number = static_cast<size_t>(location.line_number);
+    NewLine last_terminator = NewLine::LF;
+    bool last_line_unterminated = false;
+
+    auto write_directive = [&](const char* directive, const std::string& symbol, NewLine terminator) {
+        if (last_line_unterminated)
+            output << last_terminator;
+        output << directive << symbol << terminator;
+        last_line_unterminated = false;
+    };
+
+    auto write_line = [&](const Line& line) {
+        if (last_line_unterminated)
+            output << last_terminator;
+        output << line;
+        last_terminator = terminator_of(line);
+        last_line_unterminated = line.newline == NewLine::None;
+    };
 
     for (const auto& patch_line : hunk.lines) {
         if (patch_line.operation == ' ') {
             const auto& line = lines.at(line_number);
             ++line_number;
             if (define_state != DefineState::Outside) {
-                output << "#endif" << line.newline;
+                write_directive("#endif", "", terminator_of(line));
                 define_state = DefineState::Outside;
             }
-            output << line;
+            write_line(line);
         } else if (patch_line.operation == '+') {
             if (define_state == DefineState::Outside) {
                 define_state = DefineState::InsideIFDEF;
-                output << "#ifdef " << define << patch_line.line.newline;
+                write_directive("#ifdef ", define, terminator_of(patch_line.line));
             } else if (define_state == DefineState::InsideIFNDEF) {
                 define_state = DefineState::InsideELSE;
-                output << "#else" << patch_line.line.newline;
+                write_directive("#else", "", terminator_of(patch_line.line));
             }
-            output << patch_line.line;
+            write_line(patch_line.line);
         } else if (patch_line.operation == '-') {
             const auto& line = lines.at(line_number);
             ++line_number;
 
             if (define_state == DefineState::Outside) {
                 define_state = DefineState::InsideIFNDEF;
-                output << "#ifndef " << define << line.newline;
+                write_directive("#ifndef ", define, terminator_of(line));
             } else if (define_state == DefineState::InsideIFDEF) {
                 define_state = DefineState::InsideELSE;
-                output << "#else" << line.newline;
+                write_directive("#else", "", terminator_of(line));
             }
-            output << line;
+            write_line(line);
         }
     }
 
     if (define_state != DefineState::Outside)
-        output << "#endif" << lines.at(lines.size() - 1).newline;
+        write_directive("#endif", "", last_terminator);
 
     return static_cast<LineNumber>(line_number);
 }
